@@ -138,6 +138,15 @@ def scan_accessors():
     return found
 
 
+# the compile error each raw-pointer probe must be rejected WITH (any other error means the probe no longer tests its point)
+MUSTREJECT_CODES = {
+    "mustreject_reference_from_unsafe_enum": "E0308",  # only the reflexive From<T> for T exists: mismatched types
+    "mustreject_reference_into_from_unsafe_enum": "E0277",
+    "mustreject_reference_from_ptr_safe_call": "E0133",
+    "mustreject_unsafe_enum_borrow_safe_call": "E0133",
+}
+
+
 def probe_lane(v):
     tdir = os.path.join(C.BUILD, "probes")
     env = C.base_env()
@@ -175,9 +184,15 @@ def probe_lane(v):
         codes = [c for c in st if c != "BUILT"]
         ctrl = n.startswith("control_")
         if n.startswith("mustreject_"):
+            want = MUSTREJECT_CODES.get(n)
             if "BUILT" in st:
                 verdicts[n] = "VIOLATION compiles"
-                v.add_violation(f"C16/unsound-auto-trait/{n[len('mustreject_'):]}", f"safe probe program probes/lifetimes/src/bin/{n}.rs must be rejected by the compiler (a Reference can hold an Rc / raw pointer) but it compiles", "probes", sub=n)
+                family = "unsound-safe-constructor" if want else "unsound-auto-trait"
+                v.add_violation(f"C16/{family}/{n[len('mustreject_'):]}", f"safe probe program probes/lifetimes/src/bin/{n}.rs must be rejected by the compiler (a Reference can hold an Rc / raw pointer) but it compiles", "probes", sub=n)
+            elif codes and want and want not in codes:
+                # rejected, but not for the reason the probe is about (renamed path, changed signature ...): vacuous
+                verdicts[n] = f"inconclusive: rejected with {','.join(sorted(set(map(str, codes))))}, expected {want}"
+                v.inconclusive.append(f"probe {n}: {verdicts[n]}")
             elif codes:
                 verdicts[n] = "rejected by the compiler: " + ",".join(sorted(set(map(str, codes))))
             else:
@@ -237,6 +252,13 @@ def run(prop, spec, tier, seed, v):
     except C.MonitorCrash as e:
         v.evaluations += 1
         v.add_violation(f"C16/crash/rc={e.rc}", "poison-lane monitor process died (signal / abort): memory corruption in the code under test? " + str(e), "poison")
+    # the same differential in an optimized build (debug assertions off): a bounds or validity check demoted to
+    # debug_assert! only shows here
+    try:
+        props.native(prop, spec, tier, seed + 1000003, v, binname="c16", hooks=True, lane="poison-release", release_checked=True)
+    except C.MonitorCrash as e:
+        v.evaluations += 1
+        v.add_violation(f"C16/crash/rc={e.rc}", "poison-lane monitor process (release build) died (signal / abort): memory corruption in the code under test? " + str(e), "poison-release")
     if tier == "quick":
         miri_lane(tier, v, [""], 8)
     else:
